@@ -1211,6 +1211,16 @@ pub struct GenStats {
     pub refs_too_expensive: u64,
 }
 
+/// Length of a controller stall in scheduling points: usually short, sometimes long enough for
+/// a polling or retrying peer to exhaust a bounded number of attempts (slow-consumer fault).
+fn stall_len(rng: &mut Rng, short_max: usize) -> u32 {
+    if rng.chance(1, 6) {
+        [40u32, 80, 150, 400][rng.below(4)]
+    } else {
+        rng.range(1, short_max) as u32
+    }
+}
+
 fn doc_input(rng: &mut Rng) -> String {
     let words = ["test", "test2", "a", "b1", "x9y", "1x", "Zq", ""];
     let n = rng.range(1, 4);
@@ -1382,7 +1392,7 @@ pub fn gen_workload(rng: &mut Rng, stats: &mut GenStats) -> Option<(Workload, Ve
                         script.push(Cmd::Recv);
                         script.push(Cmd::Cont);
                     }
-                    _ => script.push(Cmd::Stall(rng.range(1, 30) as u32)),
+                    _ => script.push(Cmd::Stall(stall_len(rng, 30))),
                 }
                 if personality == "I" {
                     for _ in 0..rng.range(0, 3) {
@@ -1390,14 +1400,14 @@ pub fn gen_workload(rng: &mut Rng, stats: &mut GenStats) -> Option<(Workload, Ve
                             0 | 1 => Cmd::Cont,
                             2 => Cmd::TryRecv,
                             3 => Cmd::Recv,
-                            4 => Cmd::Stall(rng.range(1, 20) as u32),
+                            4 => Cmd::Stall(stall_len(rng, 20)),
                             _ => random_bp_cmd(rng),
                         };
                         script.push(c);
                     }
                 }
                 if rng.chance(1, 3) {
-                    script.push(Cmd::Stall(rng.range(1, 12) as u32));
+                    script.push(Cmd::Stall(stall_len(rng, 12)));
                 }
                 if rng.chance(1, 6) {
                     script.push(Cmd::LoadInput(mk_input(rng)));
@@ -1425,7 +1435,7 @@ pub fn gen_workload(rng: &mut Rng, stats: &mut GenStats) -> Option<(Workload, Ve
                         0 | 1 => Cmd::Cont,
                         2 => Cmd::TryRecv,
                         3 => Cmd::Recv,
-                        4 => Cmd::Stall(rng.range(1, 20) as u32),
+                        4 => Cmd::Stall(stall_len(rng, 20)),
                         _ => random_bp_cmd(rng),
                     };
                     script.push(c);
